@@ -432,8 +432,8 @@ func (p *vesting) Exec(w *e.World, st *e.Step) *e.Violation {
 		case "vest_convert_back":
 			if m := vm.models[st.A]; m != nil {
 				// (the open corner again: a zero-length vesting period read exactly at its
-			// grant's start may count as vested — the inclusive reading decides)
-			if m.UnvestedIncl(now).Sign() != 0 || m.Unlocked(now).Cmp(m.Original()) < 0 {
+				// grant's start may count as vested — the inclusive reading decides)
+				if m.UnvestedIncl(now).Sign() != 0 || m.Unlocked(now).Cmp(m.Original()) < 0 {
 					return e.Violatef("vesting-arithmetic", "converted-back-with-locked-or-unvested-coins", "acct %d at %d: reference unvested %s, unlocked %s of %s", st.A, now, m.Unvested(now), m.Unlocked(now), m.Original())
 				}
 				delete(vm.models, st.A)
